@@ -104,6 +104,31 @@ def check_C19(tier, seed, res, replay=None):
     res.count_cases(cases, lambda c: True)
     res.add_samples(cases[:2] + cases[-1:])
     v = run_events(res, rd, "c19", cases, "TraceLaws.tla", timeout_ms=600000)
+    # twin arm: driver-generated pairs (half of them "nearly included": B a shifted copy of A with a rule dropped / added), all 8
+    # selections on the pair AND on a twin presentation; only pairs whose 16 verdicts are not all equal come back, judged by TLC
+    nb, per = (960, 12000) if tier == "thorough" else (64, 8000)
+    batches = [{"id": ["twinagree", i], "op": "inclagree", "twin": True, "seed": seed * 5003 + i, "count": per,
+                "shape": ["near", "dense", "mid", "near"][i % 4], "tmo": 900000} for i in range(nb)]
+    cf = os.path.join(rd, "twin.cases.ndjson")
+    vlib.write_ndjson(cf, batches)
+    events, pairs, noninc = [], 0, 0
+    for sh in vlib.drive(cf, os.path.join(rd, "twin.ev"), timeout_ms=900000):
+        for ev in vlib.read_ndjson(sh):
+            if ev.get("outcome") != "ok":
+                events.append(dict(ev, op="twin", A={"fin": [], "rules": []}, B={"fin": [], "rules": []}, tseed=0))
+                continue
+            pairs += ev["res"]["count"]
+            noninc += ev["res"]["nonincluded"]
+            events += ev["res"]["disagree"]
+    res.extra["twin_arm_pairs"] = pairs
+    res.extra["twin_arm_nonincluded_pairs"] = noninc
+    res.extra["twin_arm_disagreements"] = len(events)
+    if events:
+        ef = os.path.join(rd, "twin.disagree.0.ndjson")
+        vlib.write_ndjson(ef, events)
+        v2 = vlib.tlc_validate("TraceLaws.tla", [ef])
+        res.add_validation(v2)
+        res.report_fails(v2["fails"], os.path.join(vlib.OUT, "viol"))
     # measured: how many verdicts were actually obtained (time-outs are not coverage)
     got = tot = 0
     for sh in sorted(__import__("glob").glob(os.path.join(rd, "c19.ev.*.ndjson"))):
